@@ -30,5 +30,5 @@ def conditions(tier, seed):
                     bound='three uuid4 results (symbolic 128-bit, version/variant bits set), peek/next interleavings',
                     symbolic=['v1', 'v2', 'v3'], case_split=['ops']))
     out.append(Cond('types', 'c19_new.py', {}, func='check_type', timeout=t,
-                    bound='16 type names', case_split=['ti']))
+                    bound='16 type names x value omitted / positional / keyword', case_split=['ti', 'how']))
     return out
